@@ -35,7 +35,7 @@ ASSUMPTIONS = [
     "numpy einsum is trusted; tolerance 1e-9 relative to the largest entry of the expected 6x6",
 ]
 BOUND = {
-    "quick": "n_grains in {1,2,3,40}; 1-3 snapshots; 5 fraction letters; 3 volume letters; 5 stiffness sets; "
+    "quick": "n_grains in {1,2,3,40} (+ 5000 once per assemblage and volume letter); 1-3 snapshots; 5 fraction letters; 3 volume letters; 5 stiffness sets; "
     "6 frame rotations (3 cube + 3 generic)",
     "thorough": "n_grains in {1,2,3,4,6,200}; 1-4 snapshots; 8 fraction letters incl. (1,0),(0,1); 7 volume "
     "letters; 4 texture kinds (adds mixed cube/generic/near-identity); all FRAME rotations",
@@ -126,6 +126,12 @@ def gen_cases(tier, seed):
                         for asm in ASMS:
                             for fr in FR1 if "," not in asm else fr2:
                                 keys.append(dict(kind="avg", asm=asm, fr=fr, tex=tex, n=n, vol=vol, snaps=ns_, stiff=stiff))
+    # an aggregate larger than any internal block size one might think of, and not a round
+    # multiple of a power of two (seed C10h: block-wise summation dropping the remainder)
+    for asm in ASMS:
+        for fr in (FR1 if "," not in asm else fr2)[:1]:
+            for vol in ("uniform", "dominant"):
+                keys.append(dict(kind="avg", asm=asm, fr=fr, tex="gen", n=5000, vol=vol, snaps=1, stiff="builtin"))
     pairs = [(a, b) for a in (1, 2, 3) for b in (1, 2, 3) if a != b]
     for stiff in ("builtin", "custom"):
         for asm in ("ol,en", "en,ol"):
